@@ -16,8 +16,16 @@ def nat(k):
     return "%d%%nat" % int(k)
 
 
-def coq_op(o):
+def coq_op(o, bg=False):
+    """bg: the case runs in the harness's bgblocks mode (real processBlocks goroutine): a turn of the block
+    thread processes every delivered block at the head of the queue, also inside a settling run"""
     n = o[0]
+    if bg and n in ("process", "process_release"):
+        return "CProcessAll"
+    if bg and n == "settle":
+        return "(CSettleBg %s)" % nat(o[1])
+    if n == "process_hold":          # the thread is held between its pop and ProcessBlock: for the monitor
+        return "(CAct (AAdvance 0))"  # nothing happens to the chain
     if n == "deliver":
         return "(CAct (ADeliver %s))" % nat(o[1])
     if n == "dup":
@@ -256,6 +264,42 @@ def scripted_cases():
     return res
 
 
+def hold_cases():
+    """Interleavings of message handling INSIDE one block-processing step (bgblocks mode, real processBlocks
+    goroutine): the block thread has popped a delivered block (state.NextBlock) and is held before the parent
+    check of ProcessBlock while a headers message reorganises below / at the repository tip; then it resumes.
+    The popped block is no longer next and is skipped; the node must still end on the peer's chain and its block
+    thread must still be running.  Monitor-only (the model's block processing step is atomic)."""
+    res = []
+    par = [[i, i - 1] for i in range(1, 5)] + [[50, 4], [51, 50]]
+    for d in (0, 1, 2, 3):                      # fork point = height 4 - d (d = 0: at the tip)
+        par += [[100 * (d + 1) + 60, 4 - d]] + [[100 * (d + 1) + 60 + j, 100 * (d + 1) + 59 + j] for j in range(1, 8)]
+    main = [0, 1, 2, 3, 4]
+    for nr in (1, 2):                           # blocks of the first extension delivered before the hold
+        for d in (1, 2, 0, 3):
+            for tail in ("", "restart", "extend", "disconnect"):
+                if tail and d not in (1, 2):
+                    continue
+                r = [50, 51][:nr]
+                q = [100 * (d + 1) + 60 + j for j in range(0, d + nr + 1)]     # one block longer than the first branch
+                ops = [["peer_set_best", main], ["settle", SETTLE], ["peer_set_best", main + r], ["deliver", 0], ["answer", 0]] + \
+                      [["deliver", 0]] * nr + [["process_hold"], ["peer_set_best", main[:5 - d] + q], ["deliver", 0],
+                                               ["process_release"]]
+                if tail == "restart":
+                    ops += [["restartnode"]]
+                elif tail == "disconnect":
+                    ops += [["answer", 0], ["deliver", 0], ["disconnect"]]
+                ops += [["settle", SETTLE]]
+                if tail == "extend":
+                    ops += [["peer_set_best", main[:5 - d] + q + [q[-1] + 1]], ["settle", SETTLE]]
+                res.append({"cfg": {"parents": par, "start": 0, "m": 2000, "bgblocks": 1}, "ops": ops, "skip_model": True})
+    # held while the next announcement simply extends the chain (nothing is skipped)
+    ops = [["peer_set_best", main], ["settle", SETTLE], ["peer_set_best", main + [50]], ["deliver", 0], ["answer", 0], ["deliver", 0],
+           ["process_hold"], ["peer_set_best", main + [50, 51]], ["deliver", 0], ["process_release"], ["settle", SETTLE]]
+    res.append({"cfg": {"parents": par, "start": 0, "m": 2000, "bgblocks": 1}, "ops": ops, "skip_model": True})
+    return res
+
+
 def long_cases(rng, n):
     """Chains crossing the 1000-header file boundary of the block store, with a reorg across it."""
     res = []
@@ -303,10 +347,22 @@ def make_cases(tier, rng, replay):
     for c in scripted_cases():
         c["origin"] = "scripted"
         cases.append(c)
+    for c in hold_cases():
+        c["origin"] = "scripted-hold"
+        cases.append(c)
     n = 150 if tier == "quick" else 3000
     for i in range(n):
         r = rng.fork(1000 + i)
         cases.append(gen_case(r, i))
+    # a fraction of the ordinary histories once more with the REAL processBlocks goroutine doing the block
+    # processing (bgblocks): must agree with the model exactly (a turn of the thread = every delivered block at the
+    # head of the queue)
+    gen = [c for c in cases if c.get("origin") is None]
+    scr = [c for c in cases if c.get("origin") == "scripted"]
+    for c in gen[::(12 if tier == "quick" else 25)] + scr[::9]:
+        cfg = dict(c["cfg"])
+        cfg["bgblocks"] = 1
+        cases.append({"cfg": cfg, "ops": c["ops"], "origin": "bgblocks"})
     cases += long_cases(rng, 2 if tier == "quick" else 8)
     return cases
 
@@ -317,7 +373,9 @@ def suites(tier, rng, replay):
     for c in cases:
         cfg = c["cfg"]
         par = "[" + "; ".join("(%s, %s)" % (vlib.z(a), vlib.z(b)) for a, b in cfg["parents"]) + "]"
-        c["coq_ops"] = [coq_op(o) for o in c["ops"]]
+        c["coq_ops"] = [coq_op(o, bool(cfg.get("bgblocks"))) for o in c["ops"]]
+        if any(o[0] == "process_hold" for o in c["ops"]):
+            c["skip_model"] = True       # the model's block processing step is atomic: monitor-only
         c["model"] = ("cmp_run (crun maxRequestedBlocks maxPendingBlockSize handshakeTimeout headerTimeout blockTimeout "
                       "UntrustedHeaderDelta %s %s %s)" % (nat(cfg.get("m", 2000)), par, vlib.z(cfg["start"])))
     small = [c for c in cases if c.get("origin") != "long"]
